@@ -35,7 +35,9 @@ def tbl_xml(rows, spelling, nhead=0, nested=None):
             elif kind == "continue":
                 pr.append(X("w:vMerge", {"w:val": "continue"} if spelling.get("explicit_continue") else {}))
             extra = [nested[cid], X("w:p")] if nested and cid in nested else []
-            tcs.append(X("w:tc", {}, [X("w:tcPr", {}, pr), X("w:p", {}, [X("w:r", {}, [X("w:t", {}, [XT(str(cid))])])])] + extra))
+            empty = cid in spelling.get("empty_cells", ()) or (kind == "continue" and spelling.get("empty_cells") is not None)
+            para = X("w:p") if empty else X("w:p", {}, [X("w:r", {}, [X("w:t", {}, [XT(str(cid))])])])
+            tcs.append(X("w:tc", {}, [X("w:tcPr", {}, pr), para] + extra))
         # other row properties (no header meaning) appear in header and body rows alike
         noise = [X("w:cantSplit"), X("w:trHeight", {"w:val": "300"}), X("w:jc", {"w:val": "center"})] if spelling.get("trpr_noise") and (i + len(rows)) % 2 == 0 else []
         trpr = [X("w:trPr", {}, noise[:1] + [X("w:tblHeader")] + noise[1:])] if i < nhead else ([X("w:trPr", {}, noise)] if noise else [])
@@ -87,6 +89,23 @@ def html_rows(html, table=None):
             elif n.get("name") in ("thead", "tbody"):
                 rows_of(n, n["name"])
     rows_of(table, None)
+    return out
+
+
+def shape_rows(html):
+    """[(tag, [(text or '', colspan, rowspan)])] of the single table of the output, cells identified by position only"""
+    forest = O.strict_parse(html)
+    (table,) = [n for n in forest if n.get("name") == "table"]
+    out = []
+
+    def rows_of(parent):
+        for n in parent["children"]:
+            if n.get("name") == "tr":
+                out.append([(c["name"], first_text(c["children"]) or "", int(c["attrs"].get("colspan", 1)), int(c["attrs"].get("rowspan", 1)))
+                            for c in n["children"]])
+            elif n.get("name") in ("thead", "tbody"):
+                rows_of(n)
+    rows_of(table)
     return out
 
 
@@ -145,8 +164,31 @@ def run(ctx):
             nested = {host: tbl_xml(rows2, spelling, nhead2)}
             nested_info = (host, rows2, grid2, nhead2, R2)
             dist["nested"] = dist.get("nested", 0) + 1
+        # cells WITHOUT content: several cells of a row can then be equal as values (same span, no content), continuation cells included
+        empties = None
+        if kind == "random" and nested is None and ctx.rng.random() < 0.4:
+            plain = [cid for row in rows for cid, w, kd in row if kd != "continue"]
+            empties = set(ctx.rng.sample(plain, ctx.rng.randint(1, max(1, len(plain) // 2))))
+            spelling["empty_cells"] = sorted(empties)
+            dist["with_empty_cells"] = dist.get("with_empty_cells", 0) + 1
         table = read_table(tbl_xml(rows, spelling, nhead, nested))
         ctx.count()
+        if empties is not None:
+            # shape oracle: per row, the non-continuation cells in order with their spans (rowspan = height of the rectangle), by position
+            res = conversion.convert_document_element_to_html(D.document([table]))
+            ctx.count()
+            height = {kk + 1: hh for kk, (r_, c_, hh, w_) in enumerate(rects)}
+            exp_rows = [[("th" if ri < nhead else "td", "" if cid in empties else str(cid), w, height[cid]) for cid, w, kd in row if kd != "continue"]
+                        for ri, row in enumerate(rows)]
+            try:
+                got_rows = shape_rows(res.value)
+                bad = None if got_rows == exp_rows else "rows, cell order or spans differ from the document's (cells without content)"
+            except Exception as e:
+                bad, got_rows = "output table is malformed: %s" % e, None
+            if bad:
+                ctx.violation("oracle", bad, {"api": "body_xml.reader().read_all + convert_document_element_to_html", "R": R, "C": C, "rects": rects,
+                                              "spelling": spelling, "nhead": nhead, "nested": None, "expected_rows": exp_rows, "observed_html": res.value[:900]}, True)
+            continue
         obs = [[(cell_id(c), c.colspan, c.rowspan) for c in row.children] for row in table.children]
         if any(h > 1 for (_, _, h, _) in rects):
             dist["with_rowspan"] += 1
@@ -208,6 +250,14 @@ def replay(ctx, rep):
         nested = {n["host"]: tbl_xml([[tuple(c) for c in row] for row in n["rows"]], r["spelling"], n["nhead"])}
     table = read_table(tbl_xml(rows, r["spelling"], r["nhead"], nested))
     res = conversion.convert_document_element_to_html(D.document([table]))
+    if r.get("expected_rows") is not None:
+        try:
+            got = shape_rows(res.value)
+        except Exception as e:
+            got = repr(e)
+        ok = got == [[tuple(c) for c in row] for row in r["expected_rows"]]
+        print("replay:", "property holds on this input" if ok else "violated: %r" % (got,))
+        return 0 if ok else 1
     try:
         bad, hr = check_table(None, rows, grid, r["nhead"], r["R"], res.value)
         if not bad and nested:
